@@ -18,6 +18,12 @@ func init() {
 }
 
 func c15(c *Ctx) {
+	c.OnlyGuards("restart/every-directory-opened", "litefs.(*Store).openDatabases", c.P.PlainCalls("litefs.(*Store).openDatabase"), gs(
+		GP("(litefs.OS.MkdirAll(p0.OS, \"OPENDATABASES\", litefs.(*Store).DBDir(p0), 511) == nil)", true),
+		GP("(litefs.OS.ReadDir(p0.OS, \"OPENDATABASES\", litefs.(*Store).DBDir(p0))#1 == nil)", true),
+		G(`\(.* < builtin\.len\(litefs\.OS\.ReadDir\(.*\)#0\)\)`, true), G(`\(.* < builtin\.len\(litefs\.OS\.ReadDir\(.*\)#0\)\)`, false),
+		G(`\(litefs\.\(\*Store\)\.openDatabase\(.*\) == nil\)|\(nil == litefs\.\(\*Store\)\.openDatabase\(.*\)\)`, true),
+	), 1, "at start-up every entry of the dbs directory is opened - under no condition on its contents (a dropped database has no database file, only its ltx directory with the tombstone)", "a restarted node that skips such a directory forgets the database and its position: lagging replicas never receive the drop and recreation starts a new log")
 	p := c.P
 	dr := "litefs.(*DB).Drop"
 	c.ltxHeaders(dr)
